@@ -30,6 +30,9 @@ var transTargets = []transTarget{
 	{"node/kafkaconsumer/kafkaconsumer.go", "KafkaConsumer", "calculateAssignmentOffsets", "loop0", "calcOffsetsBody"},
 	// C07 / C19
 	{"node/kafkaconsumer/recoveryconsumer.go", "RecoveryConsumer", "recoverSingleEvent", "", "recoverSingleEvent"},
+	{"node/kafkaconsumer/kafkaconsumer.go", "KafkaConsumer", "processEvent", "", "kcProcessEvent"},
+	// C09
+	{"node/kafkaconsumer/kafkaconsumer.go", "KafkaConsumer", "revokePartitionAssignments", "", "kcRevoke"},
 	// C08
 	{"node/kafkaconsumer/recoverytracker.go", "", "min", "", "trackerMin"},
 	{"node/kafkaconsumer/recoverytracker.go", "", "max", "", "trackerMax"},
